@@ -89,6 +89,17 @@ def typed_view(desc):
     return (tuple((type(v).__name__, v) for v in a), tuple((n, type(v).__name__, v) for n, v in k))
 
 
+def separator_collision(a, b):
+    """Known finding F12: two different call signatures whose keys coincide because positional and keyword
+    arguments are separated by a bare None: args + (None,) + flattened sorted kwargs are equal."""
+    try:
+        fa = tuple(a[0]) + (None,) + tuple(x for kv in a[1] for x in kv)
+        fb = tuple(b[0]) + (None,) + tuple(x for kv in b[1] for x in kv)
+    except Exception:
+        return False
+    return a != b and fa == fb
+
+
 def same_result(got, want, typed):
     if got != want:
         return False
@@ -181,11 +192,8 @@ def run_seq(case):
             if not same_result(got, want, cfg['typed']):
                 prev = seen.get(key)
                 sig = 'shared-entry'
-                if prev is not None and prev[1] != want:
-                    pa, pk = prev[1]
-                    wa, wk = want
-                    if (None in pa and not pk and wk) or (None in wa and not wk and pk):
-                        sig = 'positional-None-vs-keyword'
+                if separator_collision(got, want):
+                    sig = 'positional-None-vs-keyword'
                 violations.append({'rule': 'C16/wrong-result', 'sig': sig,
                                    'detail': 'call #%d f(*%r, **%r) returned %r, the function returns %r (entry first stored for %r)' % (
                                        idx, args, kwargs, got, want, prev[1] if prev else None)})
@@ -279,7 +287,8 @@ def run_stampede(case):
                 violations.append({'rule': 'C16/unexpected-exception', 'sig': type(t.exc).__name__, 'detail': '%s: %s' % (t.name, str(t.exc)[:120])})
         for got, want, call in results:
             if not same_result(got, want, cfg['typed']):
-                violations.append({'rule': 'C16/wrong-result', 'sig': 'stampede', 'detail': '%s returned %r, function returns %r' % (json.dumps(call), got, want)})
+                sig = 'positional-None-vs-keyword' if separator_collision(got, want) else 'stampede'
+                violations.append({'rule': 'C16/wrong-result', 'sig': sig, 'detail': '%s returned %r, function returns %r' % (json.dumps(call), got, want)})
                 break
         total = sum(len(g) for g in cfg['gaps'])
         if incident is None and len(results) != total:
